@@ -365,7 +365,7 @@ static char *lbuf_save(struct lbuf *lb, int beg, int end, char *path, int force,
 		end = lbuf_len(lb);
 	if (!force && mtime > 0 && mtime(path) > ts) {
 		return "write failed: file changed";
-	} else if (!force && ts <= 0 && mtime(path) >= 0) {
+	} else if (!force && ts <= 0 && !access(path, F_OK)) {
 		return "write failed: file exists";
 	} else if ((fd = open(path, O_WRONLY | O_CREAT, conf_mode())) < 0) {
 		return "write failed: cannot create file";
